@@ -169,6 +169,27 @@ def run_unit(unit):
             if res and not np.array_equal(np.isnan(rays.i), np.isnan(res[0][-1])):
                 part.violation(PID, 'returned-rays-intensity-is-image-record', 'Optic.trace', 'returned rays',
                                dict(det0, distribution=name), observed=rays.i[:3], expected=res[0][-1][:3])
+        # the same bookkeeping with a polarization state set on the lens (no polarizing coating in this alphabet: the
+        # polarization factor is 1, so clipping, absorption and simple coatings must come out exactly as without it)
+        from optiland.rays import PolarizationState
+        pxs = np.array([0.0, 0.5, -0.9, 0.2, 1.0])
+        pys = np.array([0.0, 0.3, 0.1, -0.95, 0.0])
+        ref_t = np.asarray(o.trace(0.0, 0.7, w, 3, 'hexapolar').i, float).copy()
+        ref_g = np.asarray(o.trace_generic(np.zeros(5), np.full(5, 0.7), pxs.copy(), pys.copy(), w).i, float).copy()
+        for sname, st in (('unpolarized', PolarizationState(is_polarized=False)),
+                          ('linear', PolarizationState(is_polarized=True, Ex=1.0, Ey=0.0, phase_x=0.0, phase_y=0.0))):
+            o.set_polarization(st)
+            got_t = np.asarray(o.trace(0.0, 0.7, w, 3, 'hexapolar').i, float).copy()
+            rec_t = np.asarray(o.surface_group.intensity[-1], float).copy()
+            got_g = np.asarray(o.trace_generic(np.zeros(5), np.full(5, 0.7), pxs.copy(), pys.copy(), w).i, float).copy()
+            part.transitions += 2
+            part.evals += 2
+            for how, got, ref in (('Optic.trace', got_t, ref_t), ('Optic.trace (image-surface record)', rec_t, ref_t), ('Optic.trace_generic', got_g, ref_g)):
+                okk = np.isfinite(ref)
+                if got.shape != ref.shape or not np.array_equal(np.isfinite(got), okk) or (np.any(okk) and np.max(np.abs(got[okk] - ref[okk])) > 1e-12):
+                    part.violation(PID, 'intensity-with-a-polarization-state-set', how, f'state={sname}', dict(det0, state=sname),
+                                   observed=got[:5], expected=ref[:5], tol=1e-12)
+        o.set_polarization('ignore')
         # analyses report the intensities of the rays they traced
         from optiland.analysis import SpotDiagram
         from optiland.wavefront import Wavefront
